@@ -2,7 +2,7 @@
      encoding/ajson into the request structs  (internal/api/bulking/elements.go, internal/api/v1/controllers_transactions_create.go)
      bulking.TransactionRequest.ToCore, Postings.Validate (internal/posting.go)
      vm.ScriptV1.ToCore (internal/machine/vm/run.go)     -- JSON-number amounts go through float64 and int()
-     v1.Script.ToCore                                     -- panics on a variable that is neither an object nor a string
+     v1.Script.ToCore                                     -- a variable that is neither an object nor a string is an error
      bulking.BulkElement.UnmarshalJSON / UnmarshalBulkElementPayload, metadata.Metadata
    and of the amount codecs at the storage boundary (big.Int text, Volumes.Value/Scan through PostgreSQL's composite I/O).
    Every decoder is a total function  ajson -> Ok request | ClientError kind | Panic.
@@ -281,13 +281,11 @@ Definition v1_var (v : ajson) : decoded string :=
            end ;;
       Ok (a ++ " " ++ zstr n)
   | AJNull => ClientError EValidation                        (* unmarshals into the map, then m["asset"] is missing *)
-  | _ => Panic                                              (* ajson.Unmarshal(v, &rawValue) fails: panic(err) *)
+  | _ => ClientError EValidation                            (* json.Unmarshal(v, &rawValue) fails: "invalid variable" error
+                                                               (was panic(err) before the repair fixes/01-v1-script-vars-panic) *)
   end.
-(* Go ranges over the vars MAP (unspecified order) and stops at the first error or panic: with several bad variables
-   the outcome depends on the iteration order. The model takes the worst case: Panic if any variable panics. *)
-Definition is_panic {A} (d : decoded A) : bool := match d with Panic => true | _ => false end.
+(* Go ranges over the vars MAP (unspecified order) and stops at the first error: every error is the same client error *)
 Definition v1_script_to_core (s : rscript_raw) : decoded script :=
-  if existsb (fun kv => is_panic (v1_var (snd kv))) (rr_vars s) then Panic else
   vs <- mapM (fun kv => x <- v1_var (snd kv) ;; Ok (fst kv, x)) (rr_vars s) ;;
   Ok {| s_plain := rr_plain s; s_template := rr_template s; s_vars := vs |}.
 Definition decode_v1_script (j : ajson) : decoded script := s <- dec_script_v1api j ;; v1_script_to_core s.
